@@ -386,9 +386,10 @@ theorem update_perm_rejected {m : Mgr} {v : View} {rows : List Nat} {cols cols' 
 /-- two updates "say the same thing": same simulants, same columns (name, dtype, in the same order),
 same value for every addressed cell -/
 structure SameContent (f1 f2 : Frame) : Prop where
-  rows : ∀ r, r ∈ f1.rows ↔ r ∈ f2.rows
+  rows12 : ∀ r ∈ f1.rows, r ∈ f2.rows
+  rows21 : ∀ r ∈ f2.rows, r ∈ f1.rows
   cols : All₂ (fun a b : UCol => a.name = b.name ∧ a.dtype = b.dtype) f1.cols f2.cols
-  vals : ∀ r c, f1.value? r c = f2.value? r c
+  vals : ∀ r ∈ f1.rows, ∀ c ∈ f1.names, f1.value? r c = f2.value? r c
 
 theorem any_congr_mem {α : Type} {l1 l2 : List α} (p : α → Bool) (h : ∀ a, a ∈ l1 ↔ a ∈ l2) :
     l1.any p = l2.any p := by
@@ -422,6 +423,7 @@ theorem update_row_order_irrelevant {m : Mgr} {v : View} {f1 f2 : Frame}
     (hwf : m.table.WF) (hn : Mgr.Normal m) (h1 : f1.WF) (h2 : f2.WF) (hs : SameContent f1 f2) :
     update m v (.frame f1.rows f1.cols) = update m v (.frame f2.rows f2.cols) := by
   have hnames : f1.cols.map (·.name) = f2.cols.map (·.name) := forall₂_names hs.cols
+  have hrows : ∀ r, r ∈ f1.rows ↔ r ∈ f2.rows := fun r => ⟨hs.rows12 r, hs.rows21 r⟩
   -- the structural checks only look at names and at the set of rows
   have hA : ∀ p : String → Bool, (f1.cols.any fun c => p c.name) = (f2.cols.any fun c => p c.name) := by
     intro p
@@ -450,7 +452,7 @@ theorem update_row_order_irrelevant {m : Mgr} {v : View} {f1 f2 : Frame}
     have c2 := (hcoerce f2).trans e2
     have hpre : precheck m.table false false f1 = precheck m.table false false f2 := by
       unfold precheck
-      rw [any_congr_mem _ hs.rows, hA (fun n => (m.table.col? n).isNone)]
+      rw [any_congr_mem _ hrows, hA (fun n => (m.table.col? n).isNone)]
       simp
     cases hp : precheck m.table false false f2 with
     | error e =>
@@ -465,14 +467,14 @@ theorem update_row_order_irrelevant {m : Mgr} {v : View} {f1 f2 : Frame}
         | nil =>
           cases hr2 : f2.rows with
           | nil => rfl
-          | cons b bs => have := (hs.rows b).mpr (by simp [hr2]); simp [hr1] at this
+          | cons b bs => have := (hrows b).mpr (by simp [hr2]); simp [hr1] at this
         | cons a as =>
           cases hr2 : f2.rows with
-          | nil => have := (hs.rows a).mp (by simp [hr1]); simp [hr2] at this
+          | nil => have := (hrows a).mp (by simp [hr1]); simp [hr2] at this
           | cons b bs => rfl
       rw [hE, hn.2]
       obtain ⟨p2, _, _⟩ := precheck_ok hp
-      have p1 : ∀ r ∈ f1.rows, r ∈ m.table.rows := fun r hr => p2 r ((hs.rows r).mp hr)
+      have p1 : ∀ r ∈ f1.rows, r ∈ m.table.rows := fun r hr => p2 r ((hrows r).mp hr)
       have hw : writeAll m.table f1 false = writeAll m.table f2 false := by
         unfold writeAll
         have : mapE (colUpdate m.table f1.rows false) f1.cols = mapE (colUpdate m.table f2.rows false) f2.cols := by
@@ -490,10 +492,10 @@ theorem update_row_order_irrelevant {m : Mgr} {v : View} {f1 f2 : Frame}
             · simp only [hd, if_true]
               congr 2
               apply writeCells_congr hwf.rowsNodup (hwf.lens k (col?_some hk).1) h1.rowsNodup h2.rowsNodup p1 p2
-                (h1.lens a ha) (h2.lens b hb) hs.rows
-              intro r _
+                (h1.lens a ha) (h2.lens b hb) hrows
+              intro r hr
               rw [← value?_of_mem h1.namesNodup ha, ← value?_of_mem h2.namesNodup hb, hab.1]
-              exact hs.vals r b.name
+              exact hs.vals r hr b.name (hab.1 ▸ List.mem_map_of_mem (f := (·.name)) ha)
             · simp [hd]
         rw [this]
       rw [hw]
@@ -528,10 +530,11 @@ example : exM.table.WF := ⟨by decide, by decide, by decide⟩
 example : exFrame.WF := ⟨by decide, by decide, by decide⟩
 example : Mgr.Normal exM := ⟨rfl, rfl⟩
 example : coerce (.frame exFrame.rows exFrame.cols) (viewColumns exM.table exView) = .ok exFrame := by decide
+def exAfter : Table :=
+  ⟨[0, 1, 2], [⟨"tracked", .bool, [.bool true, .bool true, .bool false]⟩, ⟨"a", .int, [.int 10, .int 2, .int 30]⟩,
+               ⟨"b", .flt, [.null, .null, .flt 9 0]⟩, ⟨"s", .str, [.str "x", .str "y", .null]⟩]⟩
 /-- the hypotheses of `update_frame` / `update_shape` are inhabited, and the result is what they say -/
-example : update exM exView (.frame exFrame.rows exFrame.cols) = .ok { pop := some
-    ⟨[0, 1, 2], [⟨"tracked", .bool, [.bool true, .bool true, .bool false]⟩, ⟨"a", .int, [.int 10, .int 2, .int 30]⟩,
-                 ⟨"b", .flt, [.null, .null, .flt 9 0]⟩, ⟨"s", .str, [.str "x", .str "y", .null]⟩]⟩ } := by decide
+example : update exM exView (.frame exFrame.rows exFrame.cols) = .ok { pop := some exAfter } := by decide
 /-- a two-column update whose *second* column has the wrong dtype: rejected, nothing written -/
 example : applyUpdate exM exView (.frame [1] [⟨"a", .int, [.int 5]⟩, ⟨"b", .int, [.int 5]⟩]) = (exM, some .dtype) := by
   decide
@@ -541,21 +544,6 @@ example : applyUpdate exM exView (.frame [1] [⟨"a", .int, [.int 5]⟩, ⟨"s",
 example : applyUpdate exM (mkView ["a", "zz"] .tt) (.frame [1] [⟨"a", .int, [.int 5]⟩, ⟨"zz", .int, [.int 5]⟩])
     = (exM, some .newColumn) := by decide
 example : SameContent exFrame ⟨[0, 2], [⟨"b", .flt, [.null, .flt 9 0]⟩, ⟨"a", .int, [.int 10, .int 30]⟩]⟩ :=
-  ⟨by decide, .cons ⟨rfl, rfl⟩ (.cons ⟨rfl, rfl⟩ .nil), by
-    intro r c
-    by_cases h0 : r = 0
-    · subst h0; by_cases hb : c = "b"
-      · subst hb; decide
-      · by_cases ha : c = "a"
-        · subst ha; decide
-        · simp [Frame.value?, List.find?, hb, ha]
-    · by_cases h2 : r = 2
-      · subst h2; by_cases hb : c = "b"
-        · subst hb; decide
-        · by_cases ha : c = "a"
-          · subst ha; decide
-          · simp [Frame.value?, List.find?, hb, ha]
-      · simp [Frame.value?, cellOf, h0, h2]
-        split <;> simp⟩
+  ⟨by decide, by decide, .cons ⟨rfl, rfl⟩ (.cons ⟨rfl, rfl⟩ .nil), by decide⟩
 
 end Viv.Props.C11
